@@ -2,6 +2,7 @@
 import collections
 import os
 import random
+import subprocess
 
 import common
 import gen_mesh
@@ -11,8 +12,9 @@ ASSUMPTIONS = [
     "Theorems: complete-table lemmas (decide) over tet_table / cell_vertices / tet_vertices of BOTH mesher copies and "
     "MarchingTable<3>, regenerated from /repo on every run; lifting theorem marching_closed for every finite oriented tet "
     "complex satisfying hypothesis (H); dc_quad_boundary for every quad.",
-    "Hypothesis (H) for the REAL octree (every non-uniform tet face occurs exactly once per orientation) is validated per run "
-    "on the dumped complex by the Lean driver, not proved; DC's minimal-edge rule across levels is validated by the oracle only.",
+    "Hypothesis (H) for the REAL octree (every non-uniform tet face occurs exactly once per orientation), four distinct vertices "
+    "per tet and pairwise different tet vertex sets (hypotheses of the edge-manifold clause, whose cross-tet part is stated, "
+    "not proved) are validated per run on the dumped complex by the Lean driver, not proved; DC's minimal-edge rule across levels is validated by the oracle only.",
     "Tie: every tet marched / triangle pushed / DC quad emitted is dumped by hooks; the Lean model recomputes the triangles "
     "and they are compared with Mesh::branes as multisets (rotation-normalised).",
     "Worker-pool / index-assignment interleavings are another builder's part of C03 (last_arriver); here schedules are only "
@@ -21,6 +23,41 @@ ASSUMPTIONS = [
 ]
 
 ALGS = ("dc", "simplex", "hybrid")
+
+
+def vol_crash_probe(exe):
+    """One sphere rendered with a VolTree per algorithm, each in its own process, so that a crash of the
+    VolTree path (former finding C04:vol-*-null-leaf, fixed by ebdd503) cannot take the whole run down.
+    Returns {alg: (rc, program)} for the algorithms that do not survive."""
+    b = gen_mesh.Builder()
+    d2 = b.add(b.add(b.un("square", b.X), b.un("square", b.Y)), b.un("square", b.Z))
+    root = b.sub(b.un("sqrt", d2), b.const(0.8))
+    bad = {}
+    for alg in ALGS:
+        prog = ["case 0"] + b.lines + ["root %d" % root, "region -2 -2 -2 2 2 2", "render %s 0.3 1e-8 2 1 0" % alg, "end"]
+        try:
+            r = subprocess.run([exe], input="\n".join(prog) + "\n", stdout=subprocess.PIPE, stderr=subprocess.PIPE,
+                               text=True, timeout=120)
+            rc = r.returncode
+            if rc == 0 and "endrender" not in r.stdout:
+                rc = "no-output"
+        except subprocess.TimeoutExpired:
+            rc = "timeout"
+        if rc != 0:
+            bad[alg] = (rc, prog)
+    return bad
+
+
+def strip_vol(lines, algs):
+    """turn the VolTree off in the render lines of the given algorithms"""
+    out = []
+    for ln in lines:
+        w = ln.split()
+        if w and w[0] == "render" and w[1] in algs and w[5] == "1":
+            w[5] = "0"
+            ln = " ".join(w)
+        out.append(ln)
+    return out
 
 
 def gen_program(rng, tier):
@@ -43,7 +80,7 @@ def gen_program(rng, tier):
                 errs.insert(1, rng.choice(["1e-2", "1e-2", "1e-3", "3e-2"]))
             for me in errs:
                 workers = rng.choice([1, 2, 4, 8, 16])
-                vol = 1 if (alg == "dc" and rng.random() < 0.3) else 0   # simplex/hybrid + vol: see C04
+                vol = 1 if rng.random() < 0.3 else 0
                 renders.append("render %s %.9g %s %d %d 1" % (alg, mf, me, workers, vol))
         lines += hdr + renders + ["end"]
         meta[cid] = {"header": hdr, "levels": L, "min_feature": mf, "prims": [p["kind"] for p in sh["prims"]],
@@ -105,6 +142,14 @@ def run(rep, tier, seed, replay=None):
     aud = common.audit("C03")
     exe = common.build_harness("mesh")
     prog, meta = gen_program(rng, tier)
+    crashing = vol_crash_probe(exe)
+    for alg, (rc, cprog) in crashing.items():
+        rep.violation("Mesh::render with alg=%s and settings.vol set crashes (rc=%s)" % (alg, rc),
+                      {"kind": "oracle", "program": cprog, "rc": rc,
+                       "how": "write `program` to a file and run .build/plain/harness/mesh <file>"},
+                      key="C04:vol-%s-null-leaf" % alg)
+    if crashing:
+        prog = strip_vol(prog, set(crashing))
     work = os.path.join(common.BUILD, "work")
     os.makedirs(work, exist_ok=True)
     pf = os.path.join(work, "c03-%d-%s.prog" % (seed, tier))
@@ -141,6 +186,7 @@ def run(rep, tier, seed, replay=None):
         if aud["ok"]:
             raise
     ok, mism, hfail, unmatched = {}, {}, {}, collections.defaultdict(list)
+    vfail = {}
     for v in verdicts:
         w = v.split()
         if w[0] == "ok":
@@ -149,6 +195,8 @@ def run(rep, tier, seed, replay=None):
             mism[w[1]] = v
         elif w[0] == "H" and w[2] == "FAIL":
             hfail[w[1]] = int(w[3])
+        elif w[0] == "V" and w[2] == "FAIL":
+            vfail[w[1]] = int(w[3])
         elif w[0] == "unmatched":
             unmatched[w[1]].append([int(x) for x in w[2:]])
 
@@ -179,6 +227,8 @@ def run(rep, tier, seed, replay=None):
         stats["workers_" + h[5]] += 1
         if h[4] != "-1":
             stats["merging_on"] += 1
+        if h[6] == "1":
+            stats["with_vol_" + alg] += 1
         bad = mesh_oracle(rd, manifold=(alg != "dc"))
         if bad:
             oracle_bad[rd["id"]] = bad
@@ -224,6 +274,14 @@ def run(rep, tier, seed, replay=None):
         rep.violation("hypothesis (H) of marching_closed fails on the dumped tet complex although the mesh is balanced: %s" % rid,
                       rp, key=known_key(rd, []), no_input=True)
         reported.add(rid)
+    for rid, n in vfail.items():
+        if rid in reported:
+            continue
+        rp = replay_of(info[rid])
+        rp.update({"kind": "hypothesis-TetSetsDistinct", "count": n})
+        rep.violation("%d dumped tets repeat the vertex set of another tet (hypothesis of the edge-manifold clause "
+                      "marching_manifold) although the mesh passed the oracle: %s" % (n, rid), rp, no_input=True)
+        reported.add(rid)
     for rid, m in mism.items():
         if rid in reported:
             continue
@@ -244,7 +302,7 @@ def run(rep, tier, seed, replay=None):
         "rule": "seeded CSG solids (2-4 rotated/translated spheres, boxes, cylinders, tori; union/intersection/difference, "
                 "smooth blends) strictly inside the region; 2-6 octree levels; dc/simplex/hybrid; max_err default, larger, -1; "
                 "workers 1..16; non-trivial = non-empty mesh with distinct (shape, algorithm, max_err)",
-        "correspondence": {"verdicts_ok": len(ok), "mismatch": len(mism), "hypothesis_H_failures": len(hfail),
+        "correspondence": {"verdicts_ok": len(ok), "mismatch": len(mism), "hypothesis_H_failures": len(hfail), "tet_sets_distinct_failures": len(vfail),
                            **{k: v for k, v in sorted(stats.items())}},
         "distribution": {"levels": collections.Counter(str(m["levels"]) for m in meta.values()),
                          "prims": collections.Counter(p[0] for m in meta.values() for p in m["prims"]),
